@@ -4,6 +4,7 @@
    behaviour in `unsafe` blocks or allocator behaviour — those are exercised on the real code by the check. *)
 From SJ Require Import Base.Bytes Base.FloatB Gen.Tables Model.Read Model.Str Model.Num Model.Value Model.De Model.Ignore Model.Stream.
 From SJ Require Import Proofs.Total.
+From SJ Require Import Model.Ty Model.DeTyped Proofs.TypedDepth.
 
 (* termination: the explicit fuel is never exhausted, for every environment (any reader kind, EOF or failing reader, any cfg) *)
 Theorem C14_total_value : forall E bs, from_input E bs <> OutOfFuel.
@@ -50,7 +51,17 @@ Theorem C14_stream : forall E itemp ss, (itemp = value_item \/ itemp = ignored_i
   fst (stream_next E itemp ss) <> Some IBad.
 Proof. exact stream_next_no_bad_strong. Qed.
 
+(* typed targets: every typed entry point that uses check_recursion! (Vec, tuple, tuple struct, positional struct, map, struct by name,
+   enum newtype wrapper; Option/newtype pass through) rejects a document nested n containers deep, n > budget, with RecursionLimitExceeded
+   (TFuel = explicit fuel exhausted; the typed development does not yet carry a fuel-sufficiency theorem) *)
+Theorem C14_typed_depth : forall n t doc E fuel rest off pk k,
+  nested n t doc -> limit_disabled (cf E) = false -> (k < n)%nat -> (k < 255)%nat ->
+  let r := de_typed fuel E t (mkSt (doc ++ rest) off pk (N.of_nat (S k))) in
+  r = TFuel \/ exists i, r = TErr RecursionLimitExceeded i.
+Proof. exact typed_depth. Qed.
+
 Print Assumptions C14_total_value.
+Print Assumptions C14_typed_depth.
 Print Assumptions C14_no_panic_value.
 Print Assumptions C14_no_panic_ignored.
 Print Assumptions C14_nesting_limit.
